@@ -310,6 +310,7 @@ func SPFor(r *rand.Rand, w *World, signer *sim.Cert) (*saml2.SAMLServiceProvider
 	}
 	switch {
 	case how == 3 && w.Pool.sp != nil:
+		w.Pool.Poison = w.Atk
 		sp, clk, st = w.Pool.Copy(w.Now, store...)
 	case how >= 2:
 		sp, clk, st = w.Pool.Get(w.Now, store...)
